@@ -121,6 +121,7 @@ def run(tier, seed, mutant=None, only_validate=False):
         cfgs = [{"kind": "map_async", "parallelism": p, "cons": [c], "max_elems": ne}
                 for p in ((1, 2) if tier == "quick" else (1, 2, 3)) for c in ("future", "sync")]
         # function evaluations may raise (logged and dropped: stop_on_exception=False)
+        cfgs += [{"kind": "map_async", "parallelism": 2, "cons": ["future"], "max_elems": ne, "falsy": {"none": 2, "zero": 3}}]
         cfgs += [{"kind": "map_async", "parallelism": p, "cons": ["future"], "max_elems": ne, "faults": True}
                  for p in ((1, 2) if tier == "quick" else (1, 2, 3))]
         amod.node_engine(res, work, node="map_async", trace_module="AsyncMapAsyncTrace", cfgs=cfgs,
